@@ -145,6 +145,9 @@ func TestWorker(t *testing.T) {
 				continue
 			}
 			if time.Since(lastChange) > 30*time.Second {
+				if runtime.GOARCH != "amd64" {
+					curCfg.Arch = runtime.GOARCH
+				}
 				res.Hang = &core.HangInfo{Label: label, Config: curCfg, Seed: curSeed}
 				res.WallS = time.Since(start).Seconds()
 				writeOut(out, res, sigs)
@@ -233,6 +236,9 @@ func minimise(t *testing.T, sc *scen.Scenario, cfg core.Config, seed, runSeed ui
 		if g.Key == f.Key {
 			detail = g.Detail
 		}
+	}
+	if runtime.GOARCH != "amd64" {
+		cfg.Arch = runtime.GOARCH
 	}
 	return core.ReplayFile{Property: f.Property, Scenario: sc.Name, Config: cfg, Seed: seed, RunSeed: runSeed, Key: f.Key,
 		Detail: detail, Tape: tape, Signature: rr.Signature(), Trace: rr.Trace(), MinRuns: runs, OrigTape: len(orig)}
